@@ -262,6 +262,43 @@ pub fn run(ctx: &mut Ctx, c07: bool) {
             }
         }
     }
+    // every sequence of markup tokens up to a length, well-formed or not: all interleavings of
+    // open / close / empty / text / faults that fit, alone and as an extension of a parsed root
+    let toks: [&[u8]; 13] = [
+        b"<a>", b"<b>", b"<a/>", b"<b x=\"1\"/>", b"<a x=\"1\" y=\"2\">", b"</a>", b"</b>", b"t", b"<!--c-->", b"<![CDATA[d]]>",
+        b"<a x=1>", b"<b x=\"1\" x=\"2\"/>", b"\xFF",
+    ];
+    let max_len = if ctx.thorough { 5 } else { 4 };
+    let mut idx: Vec<usize> = vec![];
+    fn next(idx: &mut Vec<usize>, base: usize, max_len: usize) -> bool {
+        let mut i = idx.len();
+        while i > 0 {
+            i -= 1;
+            if idx[i] + 1 < base {
+                idx[i] += 1;
+                return true;
+            }
+            idx[i] = 0;
+        }
+        if idx.len() < max_len {
+            idx.push(0);
+            for x in idx.iter_mut() {
+                *x = 0;
+            }
+            return true;
+        }
+        false
+    }
+    while next(&mut idx, toks.len(), max_len) {
+        let mut b: Vec<u8> = vec![];
+        for &t in &idx {
+            b.extend_from_slice(toks[t]);
+        }
+        if idx.len() <= 3 {
+            cases.push((vec![b"<a><b x=\"1\"/>t</a>".to_vec(), b.clone()], "token-exhaustive-extension".into()));
+        }
+        cases.push((vec![b], "token-exhaustive".into()));
+    }
     for i in 0..n {
         let rp = crate::docprops::rand_pool(&mut rng);
         let rnames: Vec<&str> = rp.0.iter().map(|x| x.as_str()).collect();
@@ -364,8 +401,9 @@ pub fn run(ctx: &mut Ctx, c07: bool) {
     ctx.meta.push(("evaluations", J::N(evaluations)));
     ctx.meta.push(("distinct_nontrivial", J::N(distinct.len() as i64)));
     ctx.meta.push(("rule", json::s(format!(
-        "byte strings: exhaustive truncation of small documents (alone and as an extension); {} generated inputs = valid serialisations of random DOMs with 0-3 structured damages (unquoted / duplicated / value-less attributes, invalid UTF-8 in name / key / text / CDATA / comment / value, mismatched / extra / missing end tags, truncation, markup noise, bit flips, byte inserts/deletes, quote damage, trailing content), 5% raw random bytes, 5% nesting up to depth 200; a third as (document, extension) pairs; {}; non-trivial = some document of at least 4 bytes, distinct by bytes",
-        n, if c07 { "reader configuration drawn per case from trim_text x expand_empty_elements x check_end_names x BufReader capacity {slice,1,2,3,7,64,8192}; every Ok result is rendered" } else { "default reader configuration (a quarter through BufReaders of capacity 1..8192)" }))));
+        "byte strings: exhaustive truncation of small documents (alone and as an extension); every sequence of up to {} markup tokens out of 13 (start / end / empty tags of two names, text, comment, CDATA, an unquoted attribute, a duplicated attribute, an invalid UTF-8 byte), alone and (up to 3 tokens) as an extension; {} generated inputs = valid serialisations of random DOMs with 0-3 structured damages (unquoted / duplicated / value-less attributes, invalid UTF-8 in name / key / text / CDATA / comment / value, mismatched / extra / missing end tags, truncation, markup noise, bit flips, byte inserts/deletes, quote damage, trailing content), 5% raw random bytes, 5% nesting up to depth 200; a third as (document, extension) pairs; {}; non-trivial = some document of at least 4 bytes, distinct by bytes",
+        max_len, n, if c07 { "reader configuration drawn per case from trim_text x expand_empty_elements x check_end_names x BufReader capacity {slice,1,2,3,7,64,8192}; every Ok result is rendered" } else { "default reader configuration (a quarter through BufReaders of capacity 1..8192)" }))));
+    ctx.meta.push(("exhaustive_part", json::s(format!("all sequences of 1..{} tokens over the 13-token markup alphabet (and of 1..3 tokens as an extension of <a><b x=\"1\"/>t</a>); all truncations of the small documents", max_len))));
     ctx.meta.push(("histogram", hist.json()));
     ctx.meta.push(("samples", J::A(samples)));
 }
